@@ -624,6 +624,43 @@ func runC07(r *Run) {
 	} else {
 		r.Bad("R4", "anchor/ApplyMessageWithConfig", "", "not found")
 	}
+	// ---------- R8: nobody else writes the charged gas; the refund is computed in arbitrary precision ----------
+	r.Rule("R8", "OWN.gas-used-single-writer + SHAPE.refund-arbitrary-precision: MsgEthereumTxResponse.GasUsed — the figure the refund and the fee collector's share are computed from — is stored only in ApplyMessageWithConfig (where R4 pins it to max(minGasMultiplier × gasLimit, EVM gas − refund)); RefundGas and the ante-side fee computations (VerifyFee, DeductTxCostsFromUserBalance/deductFee helpers of x/evm/keeper) contain no machine-word multiplication or shift — leftover gas × gas price exceeds 64 bits for gas limits and prices the chain accepts")
+	{
+		nSt := 0
+		for _, fn := range scopesOf(r).S.HaqqFuncs() {
+			if isGeneratedFile(P.FileOf(fnPos(outermost(fn)))) || isTestSupport(P, fn) {
+				continue
+			}
+			eachInstr(fn, func(in ssa.Instruction) {
+				st, ok := in.(*ssa.Store)
+				if !ok {
+					return
+				}
+				if sn, f, ok := fieldOfAddr(st.Addr); !ok || sn != "MsgEthereumTxResponse" || f != "GasUsed" {
+					return
+				}
+				nSt++
+				owner := fnID(outermost(fn))
+				r.Check(owner == "(*x/evm/keeper.Keeper).ApplyMessageWithConfig", "R8", fnID(fn)+"#writes-GasUsed", P.Pos(instrPos(in)), "the one tabled writer",
+					"the charged gas of an Ethereum message is overwritten outside ApplyMessageWithConfig: the refund (gas limit − GasUsed) and the reported gas no longer follow max(minGasMultiplier × gasLimit, EVM gas) — e.g. a failing post-processing hook charging the whole gas limit")
+			})
+		}
+		r.Floor("R8", "stores to MsgEthereumTxResponse.GasUsed in consensus scope", nSt, 1)
+		nF := 0
+		for _, id := range []string{"(*x/evm/keeper.Keeper).RefundGas", "x/evm/keeper.VerifyFee", "(*x/evm/keeper.Keeper).DeductTxCostsFromUserBalance", "x/evm/keeper.CheckSenderBalance"} {
+			fn, ok := P.FnOK(id)
+			if !ok {
+				r.Bad("R8", "anchor/"+id, "", "not found")
+				continue
+			}
+			nF++
+			mw := machineWordOps(P, fn, 1, map[token.Token]bool{token.MUL: true, token.SHL: true}, map[*ssa.Function]bool{})
+			r.Check(len(mw) == 0, "R8", fnID(fn)+"#arbitrary-precision", P.Pos(fnPos(fn)), "no machine-word multiplication/shift",
+				"machine-word multiplication on a gas × price path ("+strings.Join(mw, "; ")+"): the product wraps modulo 2^64 for large gas limits or prices, so the sender is refunded (or charged) a different amount than gasUsed × price")
+		}
+		r.Floor("R8", "fee/refund functions examined for machine-word arithmetic", nF, 4)
+	}
 	// ---------- R5 ----------
 	r.Rule("R5", "FLOW.floor-on-paid-fee: on the Cosmos routes the fee that DeductFeeDecorator takes is the tx-fee checker's effective fee; the fee MinGasPriceDecorator compares with gasLimit × MinGasPrice must be that same quantity (derive from a TxFeeChecker call), not only the declared fee — otherwise a transaction whose effective price is below its declared price is accepted while paying less than the floor")
 	isCheckerCall := func(v ssa.Value) bool {
